@@ -164,7 +164,7 @@ def _parse_string_output(out):
     return out[i + 3:j].replace('""', '"')
 
 
-def run_model(rundir, tag, imports, show_expr, case_terms, shard=400, extra_defs=""):
+def run_model(rundir, tag, imports, show_expr, case_terms, shard=400, extra_defs="", case_type=None):
     """Evaluate `show_expr` (a Coq function  case -> string) on every case term inside the
     Coq kernel's VM; returns one output string per case (must not contain newlines)."""
     if not case_terms:
@@ -175,7 +175,7 @@ def run_model(rundir, tag, imports, show_expr, case_terms, shard=400, extra_defs
         path = os.path.join(rundir, "cases_%s_%d.v" % (tag, k))
         with open(path, "w", encoding="utf-8") as f:
             f.write(imports + "\n" + extra_defs + "\n")
-            f.write("Definition cases := [\n" + ";\n".join(sh) + "\n].\n")
+            f.write("Definition cases %s:= [\n" % ((": list (%s) " % case_type) if case_type else "") + ";\n".join(sh) + "\n].\n")
             f.write("Eval vm_compute in (lines (map (%s) cases)).\n" % show_expr)
         files.append(path)
 
@@ -183,7 +183,7 @@ def run_model(rundir, tag, imports, show_expr, case_terms, shard=400, extra_defs
         p = subprocess.run(["timeout", "300", "coqc", "-Q", COQ, "Ka", "-w", "none", path],
                            stdout=subprocess.PIPE, stderr=subprocess.STDOUT, text=True, cwd=rundir)
         if p.returncode != 0:
-            raise RuntimeError("coqc failed on %s:\n%s" % (path, p.stdout[-3000:]))
+            raise RuntimeError("coqc failed on %s:\n%s" % (path, p.stdout[-1500:]))
         return _parse_string_output(p.stdout)
 
     with ThreadPoolExecutor(NCPU) as ex:
